@@ -20,7 +20,8 @@ def clean():
 
 
 def main():
-    only = sys.argv[1:]
+    only = [a for a in sys.argv[1:] if not a.startswith("--")]
+    no_extra = "--no-extra" in sys.argv
     rows = []
     assert sh("git -C /repo diff --quiet").returncode == 0, "/repo has local changes"
     for sid in sorted(os.listdir(os.path.join(ROOT, "seeded"))):
@@ -40,7 +41,7 @@ def main():
                 continue
             demo = sh(f"cd /repo && timeout 300 /venv/bin/python {d}/demo.py")
             res = {}
-            for p in [pid] + EXTRA.get(sid, []):
+            for p in [pid] + ([] if no_extra else EXTRA.get(sid, [])):
                 c = sh(f"cd {ROOT} && timeout 3000 bin/check {p} --tier quick")
                 mons = re.findall(r"new violations by monitor: (\{.*\})", c.stdout)
                 viol = [l for l in c.stdout.splitlines() if l.startswith("VIOLATION")]
